@@ -206,6 +206,11 @@ def a3(ctx):
                 inner = strip_role(r[1])
                 if isinstance(inner, tuple) and inner[0] == "call" and inner[1] == "next" and role_mentions_field(inner, "pending"):
                     wit += C.variant_edges(b, sb, 0)
+                # `next()?` (the work-list wrapped in a type of its own with a pop() method): the Break arm of Try::branch is the None
+                if isinstance(inner, tuple) and inner[0] == "call" and inner[1] == "branch" and inner[3]:
+                    i2 = strip_role(inner[3][0])
+                    if isinstance(i2, tuple) and i2[0] == "call" and i2[1] == "next" and role_mentions_field(i2, "pending"):
+                        wit += C.variant_edges(b, sb, 1)
         return wit
     for did in md:
         b = crate.bodies[did]
